@@ -5,6 +5,8 @@ CONSTANTS
   Deps <- DepsDef
   Roots <- Roots3
   SubscribeLate = FALSE
+  MaxAbandon = 0
+  SilentAbandon = FALSE
 INVARIANT SingleFlight
 INVARIANT OncePerEpoch
 INVARIANT NoOrphanWaiter
